@@ -658,7 +658,7 @@ impl<M: Manager, W: From<Object<M>>> Pool<M, W> {
     pub fn verif_snapshot(&self) -> Option<crate::verif::ManagedSnapshot> {
         let slots = self.inner.slots.try_lock_silent().ok()?;
         Some(crate::verif::ManagedSnapshot {
-            permits: self.inner.semaphore.available_permits(),
+            permits: self.inner.semaphore.available_permits_silent(),
             closed: self.inner.semaphore.is_closed_silent(),
             size: slots.size,
             max_size: slots.max_size,
